@@ -204,7 +204,7 @@ where
     else if t.startsWith "n:" then ((t.drop 2).toString.toInt?).map .int
     else parseArg w t
   showGraph (w : W) : String :=
-    "\n".intercalate ((w.ratios.filter (fun r => !r.2.isEmpty)).map (fun r => s!"{r.1}>" ++ ",".intercalate (r.2.map (fun c => toString c.1))))
+    "\n".intercalate ((isort (fun a b => decide (a.1 ≤ b.1)) (w.ratios.filter (fun r => !r.2.isEmpty))).map (fun r => s!"{r.1}>" ++ ",".intercalate (r.2.map (fun c => toString c.1))))
 
 partial def loop (h : IO.FS.Stream) (out : IO.FS.Stream) (w : W) : IO Unit := do
   let line ← h.getLine
